@@ -401,6 +401,11 @@ def run(ctx, deep, model_ok):
         for k in (2, 3):
             fixed.append({'kind': 'multiply', 'version': 'gfa1', 'lines': base + extra, 'segment': 'A', 'factor': k,
                           'policy': None, 'names': None})
+    # tags of every datatype on the multiplied segment and on its links: the copies carry them with the same datatype
+    typed = ['S\tA\t*\tRC:i:9\tst:A:c\tjj:J:{"a":1}\thh:H:0A\tbb:B:c,1,2\tff:f:1.5', 'S\tB\t*\tsb:A:y',
+             'L\tA\t+\tB\t+\t3M\tKC:i:7\tsa:A:x\thl:H:FF', 'C\tA\t+\tB\t-\t0\t*\tsc:A:z']
+    for k in (2, 3):
+        fixed.append({'kind': 'multiply', 'version': 'gfa1', 'lines': typed, 'segment': 'A', 'factor': k, 'policy': None, 'names': None})
     for i in range(-len(fixed), n):
         case = fixed[i + len(fixed)] if i < 0 else gen_case(rng, i)
         r = impl.outcome(lambda: judge(case))
